@@ -20,10 +20,11 @@ demo_bin=$(ls demo/demo demo/demo_bin 2>/dev/null | head -1)
 timeout 300 $demo_bin; rc_with=$?
 echo "demo with change: rc=$rc_with"
 [ $rc_with -ne 0 ] || { echo "DEMO DID NOT FAIL WITH CHANGE"; exit 4; }
-git stash push -q -- src || exit 9
+# (no git stash: the stash is shared by all worktrees of a repository, parallel confirmations would pop each other's changes)
+git diff -- src > $R/$id.reapply.diff; git checkout -- src || exit 9
 cmake --build _build -j6 >/dev/null
 bash demo/build.sh >/dev/null 2>&1; timeout 300 $demo_bin; rc_without=$?
-git stash pop -q
+git apply $R/$id.reapply.diff || exit 9
 cmake --build _build -j6 >/dev/null
 echo "demo without change: rc=$rc_without"
 [ $rc_without -eq 0 ] || { echo "DEMO FAILS WITHOUT CHANGE"; exit 5; }
